@@ -1,4 +1,4 @@
-import EupsModel.Lemmas.RemoveFuel
+import EupsModel.Lemmas.RemoveClosure
 import EupsModel.Lemmas.DepsTotal
 /-! C14 — remove deletes exactly what was asked and never something still needed.
 Property theorems only (model: `Model/Remove.lean`, lemmas: `Lemmas/Remove.lean`). -/
@@ -41,6 +41,22 @@ theorem C14_exact_nonrecursive (s' : State) (R : List Prod)
       simp only [Db.find] at hp
       split at hp <;> simp_all
     subst this; simp [uniqProds, Topo.dedup]
+
+/-- **With `--recursive` the removed set is the dependency closure `remove` walks**: the products *opened* from
+the requested one (itself, and every declared direct dependency — `-j` or not — of an opened product that bears
+another name) together with all their direct dependencies; nothing else.  (`Opened`, `Collected`:
+`Lemmas/RemoveClosure.lean`.  Stacks without unsetup lines, no default product.) -/
+theorem C14_exact_recursive (hns : NoUnsetup s.db) (s' : State) (R : List Prod)
+    (h : removeWith s uses name ver true check force none = (.ok, s', R)) (q : Prod) :
+    q ∈ R ↔ Collected s.db ⟨name, some ver, true⟩ q := by
+  obtain ⟨sb, l, sn, hl, _, h3, _, _⟩ := removeWith_ok h
+  subst h3
+  obtain ⟨p, hp, hiff⟩ := collect_is_closure s.db hns sb force (name, ver) _ name (some ver) l sn hl
+  have : p = ⟨name, some ver, true⟩ := by
+    simp only [Db.find] at hp
+    split at hp <;> simp_all
+  subst this
+  rw [mem_uniqProds]; exact hiff q
 
 /-- On success the requested product itself is among the removed ones (unless it is the default product). -/
 theorem C14_requested_is_removed (s' : State) (R : List Prod)
